@@ -139,6 +139,8 @@ FUNCTIONS['EXP'] = wrap_ufunc(np.exp)
 
 
 def xfact(number, fact=math.factorial, limit=0):
+    if number > 300:  # The result is not representable (and slow to get).
+        return np.nan
     return np.nan if number < limit else int(fact(int(number or 0)))
 
 
@@ -358,7 +360,7 @@ def round_up(x):
 
 
 def xround(x, d, func=round_up):
-    d = 10 ** int(d)
+    d = 10 ** max(min(int(d), 400), -400)  # Bounds the size of the integer.
     v = func(abs(x * d)) / d
     return -v if x < 0 else v
 
